@@ -77,6 +77,41 @@ def run_apalache_inductive(module, cinit, indinit, inv, init="Init", timeout=240
     return res
 
 
+def run_tlapm(module, timeout=600, threads=4):
+    """Check the TLAPS proofs of SPEC/<module>.tla (parameters unbounded).  Returns a dict with "status":
+    "proved" (all obligations) | "failed" (some obligation not proved: a MODEL-level result, never a verdict about the
+    code) | "unavailable" (tlapm missing, timeout, tool error: reported, not fatal)."""
+    exe = shutil.which("tlapm")
+    res = {"module": module, "status": "unavailable", "obligations": 0, "wall_s": 0.0}
+    if not exe:
+        res["detail"] = "tlapm not on PATH"
+        return res
+    wd = scratch("tlaps-")
+    for f in os.listdir(SPEC):
+        if f.endswith(".tla"):
+            shutil.copy(os.path.join(SPEC, f), wd)
+    t0 = time.time()
+    try:
+        p = subprocess.run([exe, "--threads", str(threads), module + ".tla"], cwd=wd, stdout=subprocess.PIPE, stderr=subprocess.STDOUT,
+                           timeout=timeout, text=True, errors="replace")
+    except subprocess.TimeoutExpired:
+        res["detail"] = "timeout after %ds" % timeout
+        res["wall_s"] = round(time.time() - t0, 2)
+        return res
+    res["wall_s"] = round(time.time() - t0, 2)
+    m = re.search(r"All (\d+) obligations? proved", p.stdout)
+    if m:
+        res["status"], res["obligations"] = "proved", int(m.group(1))
+        return res
+    m = re.search(r"(\d+)/(\d+) obligations? failed", p.stdout)
+    if m:
+        res["status"], res["obligations"] = "failed", int(m.group(2))
+        res["detail"] = "%s of %s obligations failed" % (m.group(1), m.group(2))
+    else:
+        res["detail"] = "tool error: " + p.stdout[-300:]
+    return res
+
+
 def scratch(prefix="verif-"):
     d = tempfile.mkdtemp(prefix=prefix)
     _scratch.append(d)
